@@ -614,6 +614,8 @@ func assignIPFromLocalPool(log logr.Logger, podsMapper map[string]*PodRequest, i
 
 	// only pending pods is handled
 	for podID, info := range pendingPods {
+		// only an ipv4 chosen in this round may be rolled back
+		newIPv4 := false
 		// choose eni first ...
 		if info.RequireIPv4 && info.ipv4Ref == nil {
 			if info.IPv4 == "" {
@@ -647,6 +649,7 @@ func assignIPFromLocalPool(log logr.Logger, podsMapper map[string]*PodRequest, i
 						}
 						v.IP.PodID = podID
 						v.IP.PodUID = info.PodUID
+						newIPv4 = true
 						log.Info("assign ip", "pod", podID, "ip", v.IP.IP, "eni", v.NetworkInterface.ID)
 						break
 					}
@@ -699,7 +702,7 @@ func assignIPFromLocalPool(log logr.Logger, podsMapper map[string]*PodRequest, i
 			}
 
 			if info.ipv6Ref == nil {
-				if info.IPv4 == "" && info.ipv4Ref != nil {
+				if newIPv4 && info.ipv4Ref != nil {
 					log.Info("failed to get ipv6 addr, roll back ipv4", "pod", podID, "ip", info.ipv4Ref.IP)
 
 					info.ipv4Ref.IP.PodID = ""
